@@ -466,7 +466,7 @@ def regression_seeds():
         s.append(H(-1, [["RP", str(k), "i" if kind == "i" else "t"] + gtok2], [{"api": "RP", "src": gsrc2, "k": k, "kind": kind}], gdecl))
     for k, kind, mx in ((0, "t", -1), (3, "i", -1), (3, "t", -1), (4, "o", -1), (0, "t", 1), (0, "t", 2), (0, "t", 3)):
         s.append(H(mx, [["RP", str(k), "i" if kind == "i" else "t"] + atok], [{"api": "RP", "src": asrc, "k": k, "kind": kind}]))
-    # still unrepaired (known: defect:unwind-abort-in-recover): the loop body throws from a native (Go panic → recover →
+    # repaired by 404e270 (defect:unwind-abort-in-recover): the loop body throws from a native (Go panic → recover →
     # handleThrow at the JS try frame), closing the iterator overflows the call stack inside its return()
     s.append(H(1, [["CA", "0", "1", "t", "Y", "1", "0", "S", "Fn", "1", "K", "FO", "G", "0", "P", "2", "P", "1", "K", "K"]],
                [{"api": "CA", "fn": "FU", "n": 0, "k": 1, "kind": "t"}],
@@ -559,7 +559,8 @@ KNOWN_UAR = "defect:unwind-abort-in-recover"
 
 
 def unwind_abort_in_recover(h, impl_main, model_main):
-    """Fingerprint of the one defect still unrepaired in /repo (known_findings.d/C03.json, fixes/C03-unwind-abort-in-recover.diff):
+    """Fingerprint of defect:unwind-abort-in-recover (repaired by 404e270; the known_findings entry is `fixed` and suppresses
+    nothing, so a recurrence alarms under this name):
     handleThrow, entered from a recover(), closes the iterators of the JS try frame it stopped at; an uncatchable raised by
     an iterator's return() leaves handleThrow with that frame still on the try stack, the boundary's deferred popTryFrame
     pops it instead of the marker, and a try frame (plus sp / call frames) stays at idle.  Recognised only if: outcomes and
@@ -847,7 +848,7 @@ def source_facts(ctx):
     boundaries the model knows.  (The statements of the transcribed functions are tied in Lean: GojaModel/C03/Tie.lean.)"""
     import re
     expected = {
-        ("vm.go", "try"), ("vm.go", "runTryInner"), ("runtime.go", "RunProgram"), ("runtime.go", "runWrapped"),
+        ("vm.go", "try"), ("vm.go", "runTryInner"), ("vm.go", "handleThrow"), ("runtime.go", "RunProgram"), ("runtime.go", "runWrapped"),
         ("runtime.go", "Try"), ("runtime.go", "compileAST"), ("runtime.go", "tryFunc"), ("builtin_typedarrays.go", "*"),
         # fe5ea29 + 5151c81: Exception.valueString = vm.try(obj.String()) + a recover that swallows an uncatchable after
         # leaveAbrupt at depth 0 — the control path of the model's `tryGet` (API kind ER)
@@ -897,7 +898,7 @@ TIE_MODEL_OF = {
     "saveCtx": "saveCtx", "pushCtx": "pushCtx (depth limit `>`; overflow = none)", "restoreCtx": "restoreCtx", "popCtx": "popCtx",
     "pushTryFrame": "pushTryFrame", "popTryFrame": "popTryFrame", "restoreStacks": "restoreStacks … true",
     "restoreStacks'": "restoreStacks / closeIters (deferred truncation, close only if closeIters)",
-    "handleThrow": "handleThrowLoop / restoreFrame / handleThrow", "throw": "`thrown` outcome (in-loop handleThrow)",
+    "handleThrow": "handleThrowLoop / restoreFrame / handleThrow; the deferred recover = an aborted handleThrow is followed by the uncatchable unwinding at the same boundary (unwindAtMarker on `fatal`)", "throw": "`thrown` outcome (in-loop handleThrow)",
     "vmTry": "tryB / unwindAtMarker", "runTry": "runTryB", "runTryInner": "unwindAtMarker",
     "tryExec": "tryStmt (pushTryFrame catchPos finallyPos)", "leaveTryExec": "leaveTry / exitThrough",
     "enterFinallyExec": "leaveTry (finally branch: both positions cleared)", "leaveFinallyExec": "finPhase",
